@@ -230,7 +230,13 @@ def run_batch(lang, blocks, col, label):
             cfg = res.loader.get_method_cfg(int(row["stmt_id"]))
             if cfg is not None and not hasattr(cfg, "nodes"):
                 cfg = None
+            before = set(col.buckets)
             npaths, ok = check_method(lang, prog, row, cfg, lutil.find_cfg_first_nodes, col, case_fn, shape_key)
+            for sig in set(col.buckets) - before:
+                if sig[2] in ("foreign-node", "entry-not-first-node") and len(blocks) > 1:
+                    # may depend on the methods analysed before this one in the same run: keep the whole batch
+                    col.buckets[sig]["examples"] = [{"lang": lang, "shapes": list(blocks), "pad": 0,
+                                                     "source": gen_ctl.render_methods(lang, list(blocks))}]
             for c in gen_ctl.constructs_of(b):
                 col.labels["construct:" + c] += 1
             if npaths >= 2 and has_loop_or_exit(b):
